@@ -35,6 +35,7 @@ Print Assumptions C08_blocks_unchanged.
    without error after it (no poisoned signature pool, no lock left behind in the model's terms) *)
 Theorem C08_still_serves : forall st c v,
   ns_locked st = false ->
+  heads_ok (ns_known st) (ns_heads st) = true ->
   is_request v = true ->
   fst (handle repaired st v) = Ok tt ->
   fst (handle repaired (snd (handle repaired st c)) v) = Ok tt.
@@ -53,6 +54,25 @@ Theorem C08_sync_diff_error_noop : forall fx st limit,
   handle fx st (CSync limit true) = (Err, st).
 Proof. exact sync_diff_error_is_noop. Qed.
 Print Assumptions C08_sync_diff_error_noop.
+
+(* T3c: core.heads. Every recorded head (the other-parent of the next self-event) is an event of the
+   hashgraph: an invariant of every command in both versions of the code - it is the premise of T3 -
+   and an event that is refused or silently skipped (validly signed but ill-chained: a fork of the
+   sender's own chain with any index, a duplicate, a second first event) leaves the hashgraph unchanged
+   and never becomes, or makes anything become, a head *)
+Theorem C08_heads_known : forall fx st c,
+  heads_ok (ns_known st) (ns_heads st) = true ->
+  heads_ok (ns_known (snd (handle fx st c))) (ns_heads (snd (handle fx st c))) = true.
+Proof. exact handle_heads_known. Qed.
+Print Assumptions C08_heads_known.
+
+Theorem C08_skipped_event_no_new_head : forall fx st e sigs m,
+  we_rest_ok e = false ->
+  let st' := snd (handle fx st (CEager e sigs m)) in
+  ns_known st' = ns_known st /\
+  forall k h, head_of (ns_heads st') k = Some (Some h) -> head_of (ns_heads st) k = Some (Some h).
+Proof. exact skipped_event_no_new_head. Qed.
+Print Assumptions C08_skipped_event_no_new_head.
 
 (* T4: the helpers, for every value *)
 Theorem C08_helpers_no_panic :
@@ -203,24 +223,24 @@ Print Assumptions C08_site_encoder_hang_refuted.
 
 Theorem C08_site_restore_before_check_refuted :
   handle asis st_catching_up (RFastForward (with_frame_hash good_ff false) 99 [50]) =
-    (Err, mkNS 1 1000 3 [10; 11] 99 [] false) /\
+    (Err, mkNS 1 1000 3 [10; 11] 99 [] false [1; 2] [] true) /\
   handle repaired st_catching_up (RFastForward (with_frame_hash good_ff false) 99 [50]) = (Err, st_catching_up).
 Proof. exact w_restore_before_check. Qed.
 Print Assumptions C08_site_restore_before_check_refuted.
 
 Theorem C08_site_reset_not_atomic_refuted :
   handle asis st_catching_up (RFastForward (with_insert good_ff false) 99 [50]) =
-    (Err, mkNS 1 1000 3 [] 99 [] false) /\
+    (Err, mkNS 1 1000 3 [] 99 [] false [] [] true) /\
   handle repaired st_catching_up (RFastForward (with_insert good_ff false) 99 [50]) = (Err, st_catching_up).
 Proof. exact w_reset_not_atomic. Qed.
 Print Assumptions C08_site_reset_not_atomic_refuted.
 
 Theorem C08_site_wedge_refuted :
-  fst (handle asis st_babbling (CEager good_event [])) = Ok tt /\
+  fst (handle asis st_babbling (CEager good_event [] good_meta)) = Ok tt /\
   fst (handle asis st_babbling poison) = Err /\
-  fst (handle asis (snd (handle asis st_babbling poison)) (CEager good_event [])) = Err /\
-  fst (handle asis (snd (handle asis (snd (handle asis st_babbling poison)) (CEager good_event []))) (CEager good_event [])) = Err /\
-  fst (handle repaired (snd (handle repaired st_babbling poison)) (CEager good_event [])) = Ok tt.
+  fst (handle asis (snd (handle asis st_babbling poison)) (CEager good_event [] good_meta)) = Err /\
+  fst (handle asis (snd (handle asis (snd (handle asis st_babbling poison)) (CEager good_event [] good_meta))) (CEager good_event [] good_meta)) = Err /\
+  fst (handle repaired (snd (handle repaired st_babbling poison)) (CEager good_event [] good_meta)) = Ok tt.
 Proof. exact w_wedge. Qed.
 Print Assumptions C08_site_wedge_refuted.
 
@@ -231,9 +251,24 @@ Theorem C08_leaked_lock_wedges :
   handle repaired st_suspended (CSync 10 true) = (Err, st_suspended) /\
   fst (handle repaired (snd (handle repaired st_babbling (CSync 10 true))) (CSync 10 false)) = Ok tt /\
   fst (handle repaired (leak_lock st_babbling) (CSync 10 false)) = Hang /\
-  fst (handle repaired (leak_lock st_babbling) (CEager good_event [])) = Hang.
+  fst (handle repaired (leak_lock st_babbling) (CEager good_event [] good_meta)) = Hang.
 Proof. exact w_sync_diff_error. Qed.
 Print Assumptions C08_leaked_lock_wedges.
+
+(* what the probe after a Byzantine validator's ill-chained event detects: a head that is not in the
+   hashgraph (no path of the model records one; seeded change seeded/C08-r2) makes every later valid
+   push fail while the node is busy *)
+Theorem C08_unknown_head_wedges :
+  handle asis st_babbling (CEager fork_event [] fork_meta) = (Ok tt, st_babbling) /\
+  handle repaired st_babbling (CEager fork_event [] fork_meta) = (Ok tt, st_babbling) /\
+  fst (handle repaired (snd (handle repaired st_babbling (CEager fork_event [] fork_meta)))
+                       (CEager good_event [] (mkEM 100 8 8 false))) = Ok tt /\
+  heads_ok (ns_known (poison_head st_babbling 7 999)) (ns_heads (poison_head st_babbling 7 999)) = false /\
+  fst (handle repaired (poison_head st_babbling 7 999) (CEager good_event [] (mkEM 100 8 8 false))) = Err /\
+  fst (handle repaired (snd (handle repaired (poison_head st_babbling 7 999) (CEager good_event [] (mkEM 100 8 8 false))))
+                       (CEager good_event [] (mkEM 101 8 8 false))) = Err.
+Proof. exact w_ill_chained_event. Qed.
+Print Assumptions C08_unknown_head_wedges.
 
 (* ================= the hypotheses are satisfiable / the model is not vacuous ================= *)
 
@@ -245,7 +280,7 @@ Example C08_honest_objects_accepted :
   fst (eager_sync repaired 0 good_event [good_entry]) = Ok tt /\
   ff_check asis good_ff = Ok tt /\ ff_check repaired good_ff = Ok tt /\
   process_sigpool repaired [good_entry] = (Ok tt, []) /\
-  handle repaired st_catching_up (RFastForward good_ff 99 [50]) = (Ok tt, mkNS 1 1000 3 [50] 99 [] false) /\
+  handle repaired st_catching_up (RFastForward good_ff 99 [50]) = (Ok tt, mkNS 1 1000 3 [50] 99 [] false [] [] true) /\
   handle repaired st_babbling (CSync 2 false) = (Ok tt, st_babbling) /\
   frame_validate good_ff = true /\ fev_valid good_fev = true.
 Proof. vm_compute. repeat split. Qed.
